@@ -29,7 +29,7 @@ for sid in sorted(os.listdir(os.path.join(ROOT, "seeded"))):
     else: stats["missed"] += 1
     rows.append("| %s | %s | %s | %s | %s |" % (sid, files, needs.replace("|", "/"), ver, first))
 head = ("%d kept changes: %d detected by their own property's check with a concrete replay, %d by a neighbouring property's check with a concrete replay "
-        "(their own check reports a broken obligation), %d only as a broken obligation (`no-failing-input-found`), %d missed, %d not swept yet.\n\n" % (
+        "(the mechanism belongs to that neighbour: `also_check` in meta.json; their own check reports a broken obligation or is silent), %d only as a broken obligation (`no-failing-input-found`), %d missed, %d not swept yet.\n\n" % (
             stats["n"], stats["own_replay"], stats["other_replay"], stats["noinput"], stats["missed"], stats["noverdict"]))
 table = head + "| id | file | needs, to manifest | verdict of `./check` on HEAD + patch | first replay (abridged) |\n|---|---|---|---|---|\n" + "\n".join(rows) + "\n"
 p = os.path.join(ROOT, "DESIGN.md"); s = open(p).read()
